@@ -233,15 +233,33 @@ fn table(em: &mut Emitter) {
     let base = table_state(vec![LinkS::Open, LinkS::Open, LinkS::Open]);
     let (lay, n_ex) = layout(&base);
     let filters = all_filters(&lay, n_ex);
-    for f in &filters {
+    // dead-link topologies for variant (c): a dead link (receiver dropped = unrecoverable error, or
+    // unhealthy, or no link) on the exchange whose instruments come FIRST in instrument-index order,
+    // a healthy exchange later; two dead links in a row; a dead link between two healthy ones
+    use LinkS::{Closed as Cl, Missing as Mi, Open as Op, Unhealthy as Un};
+    let dead_first: [[LinkS; 3]; 8] = [
+        [Cl, Op, Op],
+        [Cl, Cl, Op],
+        [Op, Cl, Op],
+        [Un, Cl, Op],
+        [Mi, Mi, Op],
+        [Cl, Un, Op],
+        [Mi, Op, Cl],
+        [Cl, Op, Cl],
+    ];
+    for (fi, f) in filters.iter().enumerate() {
         for (ci, cmd) in [CmdS::CancelOrders(f.clone()), CmdS::ClosePositions(f.clone())].iter().enumerate() {
             // (a) through Engine::process, all links open, the command THREE times: the repeats must
             //     request nothing;  (b) through Engine::action with exchange 0's link closed and a
             //     link-less exchange in the MIDDLE, twice: exactly the failed requests come again.
             //     One-element filters are built as OneOrMany::Many(vec![x]) in (b).
+            //     (c) a rotating dead-link topology (see above), alternately through process / action,
+            //     twice: every request to a healthy link must go out although an EARLIER request of
+            //     the same batch failed unrecoverably.
             for (vi, (path, links, times)) in [
                 (0usize, vec![LinkS::Open, LinkS::Open, LinkS::Open], 3usize),
                 (1usize, vec![LinkS::Closed, LinkS::Missing, LinkS::Open], 2usize),
+                ((fi + ci) % 2, dead_first[(fi + 3 * ci) % dead_first.len()].to_vec(), 2usize),
             ]
             .iter()
             .enumerate()
@@ -330,7 +348,7 @@ fn gen_state(r: &mut Rng, adversarial: bool) -> Spec {
         });
     }
     let n_links = if adversarial { (n_ex as i64 + *r.pick(&[-1i64, 0, 1])).max(0) as usize } else { n_ex };
-    let links: Vec<LinkS> = (0..n_links)
+    let mut links: Vec<LinkS> = (0..n_links)
         .map(|_| {
             if r.chance(if adversarial { 4 } else { 1 }, 10) {
                 *r.pick(&[LinkS::Closed, LinkS::Unhealthy, LinkS::Missing])
@@ -339,6 +357,16 @@ fn gen_state(r: &mut Rng, adversarial: bool) -> Spec {
             }
         })
         .collect();
+    // a fifth of the multi-exchange states: the FIRST exchange's link is dead (its instruments come first
+    // in instrument-index order, so its requests are sent first), the LAST one healthy; with three
+    // exchanges the middle one is dead too half of the time (two dead links in a row)
+    if n_ex >= 2 && links.len() >= n_ex && r.chance(1, 5) {
+        links[0] = *r.pick(&[LinkS::Closed, LinkS::Closed, LinkS::Missing, LinkS::Unhealthy]);
+        links[n_ex - 1] = LinkS::Open;
+        if n_ex == 3 && r.chance(1, 2) {
+            links[1] = *r.pick(&[LinkS::Closed, LinkS::Missing, LinkS::Unhealthy]);
+        }
+    }
     // a quarter of the states get their link map through the public ExecutionBuilder (a link is then
     // either there or not, one entry per exchange)
     let builder = r.chance(1, 4);
